@@ -232,10 +232,10 @@ def cmd_group(pattern, keep=False, tier='thorough'):
                 print("[%s] %s: %s %d/%d obligations, %.1fs (solver %.1fs) covers=%s %s" % (
                     r.group.kind, r.group.gid, r.status, ok, len(r.obligations), r.wall_s, r.solver_s,
                     {k: v for k, v in r.covers.items() if k in ('end', 'abort')}, r.reason))
-                for fl in r.failed[:12]:
+                for fl in r.failed[:4]:
                     print("    FAILED %s: %s" % (fl['name'], fl['description'][:150]))
                     if fl['inputs']:
-                        print("           inputs: %s" % json.dumps(fl['inputs'])[:400])
+                        print("           inputs: %s" % json.dumps(fl['inputs'])[:300])
                 if r.status != 'pass':
                     rc = 1
                 if r.failed and os.environ.get('VF_TRACE'):
